@@ -1,7 +1,9 @@
 """C15"""
 PROPERTY = "C15"
 LEVEL = "proof"
-FUNCTIONS = ['uxarray.grid.geometry._pad_closed_face_nodes']
+FUNCTIONS = ['uxarray.grid.geometry._pad_closed_face_nodes',
+    'uxarray.grid.grid.Grid.to_linecollection',
+    'uxarray.grid.grid.Grid.to_polycollection']
 STANDINS = ["geometry_export"]
 ASSUMPTIONS = []
 EXPLANATION = ""
